@@ -32,7 +32,7 @@ type wStep struct {
 	Together bool // source returns its last bytes together with the error
 	Chunk    int
 	URL      string
-	Preset   bool   // blob/stream: another Content-Type is already in the response headers when the helper is called
+	Preset   int    // blob/stream: 1 = another Content-Type is already set when the helper is called; 2 = several values are set, the first equal to the given type
 	Format   string // string: called as String(code, Format) without values; Data holds what the format stands for
 }
 
@@ -46,8 +46,8 @@ func (s wStep) String() string {
 		if s.Format != "" {
 			return fmt.Sprintf("c.String(%d,%q) without values", s.Code, s.Format)
 		}
-		if s.Preset {
-			return fmt.Sprintf("c.%s(%d,%q) with another Content-Type already set", s.Kind, s.Code, s.Data)
+		if s.Preset > 0 {
+			return fmt.Sprintf("c.%s(%d,%q) with Content-Type already set (kind %d)", s.Kind, s.Code, s.Data, s.Preset)
 		}
 		return fmt.Sprintf("c.%s(%d,%q)", s.Kind, s.Code, s.Data)
 	case "redirect":
@@ -94,9 +94,9 @@ func genWSteps(src sim.Source) []wStep {
 			}
 			out = append(out, st)
 		case k < 16:
-			out = append(out, wStep{Kind: "blob", Code: sim.Pick(src, "code", c14Codes[:5]), Data: data(), Preset: src.Intn("presetct", 3) == 0})
+			out = append(out, wStep{Kind: "blob", Code: sim.Pick(src, "code", c14Codes[:5]), Data: data(), Preset: sim.Pick(src, "presetct", []int{0, 0, 0, 1, 2})})
 		case k < 17:
-			out = append(out, wStep{Kind: "stream", Code: sim.Pick(src, "code", c14Codes[:5]), Data: data(), Together: sim.Bool(src, "together"), Chunk: src.Intn("chunk", 4), Preset: src.Intn("presetct", 3) == 0})
+			out = append(out, wStep{Kind: "stream", Code: sim.Pick(src, "code", c14Codes[:5]), Data: data(), Together: sim.Bool(src, "together"), Chunk: src.Intn("chunk", 4), Preset: sim.Pick(src, "presetct", []int{0, 0, 0, 1, 2})})
 		case k < 18:
 			out = append(out, wStep{Kind: "redirect", Code: sim.Pick(src, "rcode", []int{299, 300, 301, 302, 307, 308, 309, 200}), URL: "http://sim.invalid/next"})
 		case k < 19 && i == n-1:
@@ -200,8 +200,8 @@ func runWHistory(w *world.World, steps []wStep, caps world.Caps, reqCT string, c
 					}
 				} else {
 					firstFinal := conn.Finals == 0
-					if st.Preset && firstFinal && before == 0 {
-						c.SetHeader("Content-Type", "text/x-preset") // e.g. left by a default-content-type middleware
+					if st.Preset > 0 && firstFinal && before == 0 {
+						presetContentType(c, st.Preset)
 					}
 					err := c.Stream(st.Code, "application/x-sim", rd)
 					if fail == "" && firstFinal && before == 0 && conn.Explicit != st.Code {
@@ -261,8 +261,8 @@ func runWHistory(w *world.World, steps []wStep, caps world.Caps, reqCT string, c
 				} else if st.Kind == "string" {
 					err = c.String(st.Code, "%s", st.Data)
 				} else {
-					if st.Preset && fresh {
-						c.SetHeader("Content-Type", "text/x-preset")
+					if st.Preset > 0 && fresh {
+						presetContentType(c, st.Preset)
 					}
 					err = c.Blob(st.Code, "application/x-sim", []byte(st.Data))
 				}
@@ -515,4 +515,15 @@ func clip(s string, n int) string {
 		return s[:n]
 	}
 	return s
+}
+
+// presetContentType leaves a Content-Type in the response headers before a helper runs (a default-content-type
+// middleware would): another type, or several values of which the first equals the type the helper is given.
+func presetContentType(c fox.Context, kind int) {
+	if kind == 2 {
+		c.AddHeader("Content-Type", "application/x-sim")
+		c.AddHeader("Content-Type", "text/x-other")
+		return
+	}
+	c.SetHeader("Content-Type", "text/x-preset")
 }
